@@ -444,7 +444,10 @@ impl SharedArrayBuffer {
             })?;
 
             // 18. If new.[[ArrayBufferData]] is O.[[ArrayBufferData]], throw a TypeError exception.
-            if ptr::eq(buf.as_ptr(), new.as_ptr()) {
+            // This must compare the identity of the data blocks, not the address of their first
+            // byte: all zero-sized blocks share the same dangling address, which made slicing an
+            // empty `SharedArrayBuffer` throw.
+            if Arc::ptr_eq(&buf.data, &new.data) {
                 return Err(JsNativeError::typ()
                     .with_message("cannot reuse the same SharedArrayBuffer for a slice operation")
                     .into());
